@@ -1919,7 +1919,171 @@ def c18(tier):
                                    "UTC offsets only (DateTime has no zone)"])
 
 
-CHECKS = {"C18": c18, "C06": c06, "C11": c11, "C20": c20, "C10": c10, "C04": c04, "C15": c15, "C16": c16, "C09": c09, "C19": c19, "C03": c03, "C13": c13, "C14": c14, "C01": c01, "C02": c02, "C12": c12, "C17": c17}
+
+def extract_archives(rnd, n, sbx_abs):
+    """entry lists for extraction: trees (safe + mutually consistent), decorated names ('.', '..' detours,
+    doubled separators, backslashes, non-ASCII), conflicts, and attacks ('..' chains, absolute names aimed
+    at the canary, NUL)"""
+    import refzip
+    out = []
+    comps = [b"a", b"b", b"sub dir", "ünï".encode(), b"x.txt", b"a\\b", b"...", b"C", b".hidden", b"l2"]
+
+    def rel(depth):
+        return [rnd.choice(comps) for _ in range(depth)]
+
+    def decorate(cs):
+        o = []
+        for c in cs:
+            r = rnd.random()
+            if r < 0.08:
+                o += [b".", c]
+            elif r < 0.16:
+                o += [c, b"..", c]             # down, up, down again
+            elif r < 0.2:
+                o += [b"", c]                  # doubled separator
+            else:
+                o.append(c)
+        return o
+    attacks = [b"../C/x", b"../../pwn", b"../../../pwn3", b"a/../../C/x", b"a/b/../../../C/x", sbx_abs.encode() + b"/C/x", b"/zv_abs_canary",
+               b"..", b"../", b"a\x00b", b"\x00", b"a/../..", b"./../C/x", b"a/./../../C/new", b"..\\C\\x", b"/", b"C/../../C/x"]
+    for i in range(n):
+        kind = rnd.choice(["tree", "tree", "tree", "decorated", "conflict", "attack", "attack", "mixed"])
+        ents = []
+        k = rnd.randint(1, 6)
+        for j in range(k):
+            cs = rel(rnd.randint(1, 3))
+            if kind in ("decorated", "mixed"):
+                cs = decorate(cs)
+            isdir = rnd.random() < 0.3
+            name = b"/".join(cs) + (b"/" if isdir else b"")
+            if kind == "conflict" and j > 0 and rnd.random() < 0.6:
+                prev = ents[rnd.randrange(len(ents))]["name"]
+                name = rnd.choice([prev, prev.rstrip(b"/") + b"/", prev.rstrip(b"/") + b"/child", prev.rstrip(b"/")])
+            if kind in ("attack", "mixed") and rnd.random() < (0.5 if kind == "attack" else 0.15):
+                name = rnd.choice(attacks)
+                if rnd.random() < 0.3:
+                    name = rnd.choice([b"a/", b"b/c/"]) + name.lstrip(b"/") if not name.startswith(b"/") else name
+            isdir = name.endswith(b"/")
+            m = rnd.random()
+            system, eattr, mode = 3, 0, -1
+            if m < 0.55:
+                perm = rnd.choice([0o644, 0o600, 0o755, 0o444, 0o000, 0o777, 0o640, rnd.randrange(512)])
+                if isdir:
+                    perm |= 0o700
+                typ = 0o040000 if isdir else rnd.choice([0o100000, 0o100000, 0o120000, 0])
+                mode = typ | perm
+                eattr = mode << 16
+                if mode == 0:
+                    mode = -1
+            elif m < 0.7:
+                system = 0                      # made by DOS: mode derived from the attribute byte
+                ro = rnd.random() < 0.4 and not isdir
+                eattr = (0x10 if isdir else 0x20) | (1 if ro else 0)
+                mode = (0o40775 if isdir else 0o100664)
+                if ro:
+                    mode &= 0o555
+            data = b"" if isdir else bytes(rnd.randrange(256) for _ in range(rnd.choice([0, 1, 5, 300])))
+            ents.append({"name": name, "utf8": True, "method": 0 if (isdir or not data) else rnd.choice([0, 8]), "data": data,
+                         "system": system, "eattr": eattr, "_mode": mode})
+        try:
+            for e in ents:
+                e["name"].decode("utf-8")
+        except UnicodeDecodeError:
+            continue
+        b, v = refzip.build({"entries": [{k2: v2 for k2, v2 in e.items() if not k2.startswith("_")} for e in ents]})
+        out.append((kind, b, [{"raw": list(e["name"]), "mode": e["_mode"], "data": [len(e["data"]), crc_hex(e["data"])]} for e in ents]))
+    return out
+
+
+def c07(tier):
+    rep = Report("C07", tier)
+    wd = vlib.workdir("C07", tier)
+    vlib.build_harness()
+    for cfg in (["MC_Extract.cfg", "MC_Extract3.cfg"] if tier == "quick" else ["MC_Extract.cfg", "MC_Extract3.cfg", "MC_Extract_full.cfg"]):
+        r = vlib.tlc_mc("MC_Extract.tla", cfg, wd, timeout=1800, tag="mc-" + cfg[:-4])
+        rep.add_mc(r, cfg)
+        if r["error"]:
+            rep.spec_violation(r, cfg)
+    for bug, inv in (("raw_name", "OutsideUntouched"), ("no_modes", "TreeExact")):
+        r = vlib.tlc_mc("MC_Extract.tla", "MC_Extract_%s.cfg" % bug, wd, timeout=300, tag="mc-" + bug)
+        found = bool(r["error"]) and inv in r["error"]
+        rep.neg_controls.append({"spec_mutant": bug, "expected_violation": inv, "found": found})
+        if not found:
+            raise ToolTrouble("spec mutant %s not detected" % bug)
+    sd = vlib.seed()
+    rnd = random.Random(sd * 7717 + 7)
+    sbx = os.path.join(wd, "sbx")
+    inner = os.path.join(sbx, "l1", "l2")
+    n = 500 if tier == "quick" else 12000
+    scs = []
+    kinds = {}
+    for i, (kind, b, ents) in enumerate(extract_archives(rnd, n, inner)):
+        kinds[kind] = kinds.get(kind, 0) + 1
+        scs.append({"sc": "x%05d-%s" % (i, kind), "hex": b.hex(), "sbx": sbx, "via": ["seek", "stream"], "entries": ents, "abs_canary": "/zv_abs_canary"})
+    # the model's own name set, two entries each (spec -> impl on the shapes TLC enumerated)
+    import refzip
+    mcnames = [b"a", b"a/", b"a/C", b"a/../C", b"C/", b"../C/x", b"/C/x", b"a/./", b"C", b"a/C/", b"./a", b"a//C", b"a\\C", b".", b"./", b"a/.", b"a/.."]
+    for i, n1 in enumerate(mcnames):
+        for j, n2 in enumerate(mcnames):
+            if tier == "quick" and (i * 17 + j + sd) % 3:
+                continue
+            ents = []
+            for nm, md, dt in ((n1, 0o100600, b"one"), (n2, -1, b"two!")):
+                isdir = nm.endswith(b"/")
+                mode = (0o40755 if isdir else md) if md != -1 else -1
+                ents.append({"name": nm, "utf8": True, "method": 0, "data": b"" if isdir else dt, "system": 3, "eattr": (mode << 16) if mode != -1 else 0, "_mode": mode})
+            b, v = refzip.build({"entries": [{k2: v2 for k2, v2 in e.items() if not k2.startswith("_")} for e in ents]})
+            scs.append({"sc": "m%02d-%02d" % (i, j), "hex": b.hex(), "sbx": sbx, "via": ["seek", "stream"], "abs_canary": "/zv_abs_canary",
+                        "entries": [{"raw": list(e["name"]), "mode": e["_mode"], "data": [len(e["data"]), crc_hex(e["data"])]} for e in ents]})
+    rep.notes["archive_kinds"] = kinds
+    progs = os.path.join(wd, "extract-scenarios.ndjson")
+    trace = os.path.join(wd, "extract-trace.ndjson")
+    vlib.write_ndjson(progs, scs)
+    old = os.umask(0o022)
+    try:
+        vlib.run_harness(["xexec", progs, trace])
+    finally:
+        os.umask(old)
+    run_trace(rep, wd, "Trace_Extract", trace, "extract", {s["sc"]: {"sc": s["sc"], "hex": s["hex"], "entries": s["entries"]} for s in scs})
+    evs = vlib.read_ndjson(trace)
+    runs = [e for e in evs if e.get("ev") == "XRun"]
+    rep.evaluations += len(runs)
+    for e in runs:
+        rep.distinct.add(vlib.digest([e["via"], e["entries"]]))
+    oc = {}
+    for e in runs:
+        k = "%s:%s" % (e["via"], e["r"])
+        oc[k] = oc.get(k, 0) + 1
+    rep.notes["run_outcomes"] = oc
+    ex = next(e for e in runs if e["r"] == "ok" and e["ntree"] >= 3)
+    rep.samples.append({"names": [bytes(x["raw"]).decode("utf-8", "replace") for x in ex["entries"]], "via": ex["via"], "r": ex["r"],
+                        "tree": [["/".join(bytes(c).decode("utf-8", "replace") for c in t["p"]), t["kind"], oct(t["perm"])] for t in ex["tree"]]})
+    # binding demonstration: one permission bit / a claimed change outside must be rejected
+    seg = [{"ev": "Reset", "sc": "neg"}, dict(ex, sc="neg")]
+    for what in ("perm", "outside"):
+        def mutate(es, what=what):
+            if what == "perm":
+                es[1]["tree"][-1]["perm"] ^= 0o100
+                return "one permission bit of the extracted tree flipped"
+            es[1]["outside_changed"] = True
+            return "a change outside the target directory reported"
+        nc = vlib.corrupt_and_expect_reject("Trace_Extract.tla", "Trace_Extract.cfg", seg, wd, mutate, tag="extract-neg")
+        rep.neg_controls.append(nc)
+        if not nc["rejected"]:
+            raise ToolTrouble("negative control did not fire: " + nc["mutation"])
+    return rep.finish("model_checking",
+                      "Extract.tla: operational extraction loops (seekable: mode at once; streaming: modes from the central records afterwards) over an "
+                      "abstract file system with the OS resolving '.'/'..' physically, against the declarative tree of the lexically normalised names: "
+                      "OutsideUntouched, UnsafeFails, TreeExact, ExtractorsAgree for every list of <= 2 entries over all names of <= 2 (thorough 3) components "
+                      "from {a, C, ., ..} with leading/trailing '/', NUL, backslash, doubled separators (and <= 3 entries over a reduced name set), both "
+                      "extractors; raw_name and no_modes spec mutants found. Binding: seeded trees, decorated names, conflicts and attacks ('..' chains, absolute "
+                      "paths at a canary, NUL) built by the independent builder are extracted by both real extractors into a sandbox whose surroundings are "
+                      "snapshotted before/after; result class, confinement and the exact tree (kinds, contents, permission bits) must equal Extract!Run",
+                      assumptions=["runs as root with umask 022; directories keep owner rwx", "the target directory initially contains no symbolic links",
+                                   "names that conflict with each other leave the tree unspecified (only confinement and no-panic are required)"])
+
+
+CHECKS = {"C07": c07, "C18": c18, "C06": c06, "C11": c11, "C20": c20, "C10": c10, "C04": c04, "C15": c15, "C16": c16, "C09": c09, "C19": c19, "C03": c03, "C13": c13, "C14": c14, "C01": c01, "C02": c02, "C12": c12, "C17": c17}
 
 
 def setup():
